@@ -5,6 +5,7 @@ import (
 	"go/token"
 	"go/types"
 	"os"
+	"sort"
 
 	"golang.org/x/tools/go/ssa"
 )
@@ -190,4 +191,23 @@ func firstPos(b *ssa.BasicBlock) token.Pos {
 		}
 	}
 	return token.NoPos
+}
+
+func init() {
+	debugHooks["anchors"] = func(P *Program, M *Model, arg string) {
+		set := map[string]bool{}
+		for fn := range P.AllFuncs {
+			if fn.Parent() == nil && P.IsProductFunc(fn) && P.isAnchor(fn) {
+				set[baseName(fn)] = true
+			}
+		}
+		var l []string
+		for n := range set {
+			l = append(l, n)
+		}
+		sort.Strings(l)
+		for _, n := range l {
+			fmt.Printf("%q,\n", n)
+		}
+	}
 }
